@@ -938,6 +938,7 @@ func registerMisc(p *Program) {
 	ext["math/rand.Intn"] = func(fr *frame, a []value) value { return 0 }
 	ext["math/rand.Int63n"] = func(fr *frame, a []value) value { return int64(0) }
 	ext["math/rand.Int"] = func(fr *frame, a []value) value { return 0 }
+	ext["math/rand.Shuffle"] = func(fr *frame, a []value) value { return nil } // identity permutation (one representative order)
 	ext["math.Pow"] = func(fr *frame, a []value) value { return mathPow(a[0].(float64), a[1].(float64)) }
 	ext["net.Dial"] = func(fr *frame, a []value) value {
 		return tuple{iface{}, fr.m.mkError("dial tcp " + fr.m.concreteStr(a[1], "net.Dial") + ": connect: connection refused")}
